@@ -51,7 +51,7 @@ PROPS = {
         technique="Lean 4 proof (run invariant by induction over the plan, case analysis over the reconcile table) + executable-model correspondence on histories + version-survival oracle",
     ),
     "C06": dict(
-        modules=["Copia.Props.C06", "Copia.Props.C02b", "Copia.Props.C02c", "Copia.Props.C18b", "Copia.Props.C08e"], namespaces=["Copia.C06"], runner="bb", bb_module="bb_bisync",
+        modules=["Copia.Props.C06", "Copia.Props.C02b", "Copia.Props.C02c", "Copia.Props.C18b", "Copia.Props.C08e", "Copia.Props.C06c"], namespaces=["Copia.C06"], runner="bb", bb_module="bb_bisync",
         assumptions=_BI_ASSUME, trusted_base=_BI_TB,
         level_text="Kernel-checked WHOLE-RUN theorems for the model of `copia bisync`, for every pair of trees and every archive, under NoNameClash: `converges` (the run completes; afterwards A and B hold the same content at every path and the archive written records exactly that tree) "
                    "and `second_run_noop` (the next run plans nothing, reports no conflict and leaves both trees as they are), `conflict_outcome` (a divergent edit ends on both sides as the greater-hash version at the path and the other at the conflict-copy name), `swap_run` (naming the roots the other way round leaves the same bytes at every path on both sides, for a total antisymmetric hash order). For all maps: a converged pair with a matching record plans nothing; swapping the roots mirrors every decision. "
@@ -71,7 +71,7 @@ PROPS = {
         technique="Lean 4 proof (induction over the plan) + fault-injection correspondence on the real archive file",
     ),
     "C04": dict(
-        modules=["Copia.Props.C04", "Copia.Props.C04b", "Copia.Props.C04c"], namespaces=["Copia.C04"], runner="bb", bb_module="bb_oneway",
+        modules=["Copia.Props.C04", "Copia.Props.C04b", "Copia.Props.C04c", "Copia.Props.C06c"], namespaces=["Copia.C04"], runner="bb", bb_module="bb_oneway",
         assumptions=_OW_ASSUME, trusted_base=_OW_TB + ["bash's ANSI-C quoting ($'…') as modelled by Quote.ansiC: named escapes decoded, unknown escapes kept, numeric/control escapes outside the model (never produced by the escaping chain — proved); cross-checked against the installed bash on every run"],
         level_text="Kernel-checked theorems for ALL trees/flags over the run model: destination after a run = (deleted if in delete; source entry with the source's whole-second mtime if in transfer; untouched otherwise), "
                    "nothing outside the plan is touched — also when ANY subset of the transfers and deletes fails (`partial_failure_stays_in_plan`: the non-zero-exit clause) —, an empty source without --delete is a no-op, and ORDER INDEPENDENCE: any completion order of the parallel transfers/deletes gives the same destination. "
